@@ -77,6 +77,11 @@ def code_call(self, n, env):
                     return self.call_contract(fc, args[0], args[1:], kwargs, line, dotted)
             raise E.Unsupported("call of %s (no library contract in this unit)" % dotted)
         recv = self.ev(f.value, env)
+        if isinstance(recv.s, OptS) and isinstance(recv.s.inner, (SeqS, MapS)):
+            self.guard(z3.Not(opt_is_none(recv.t)), "AttributeError", line)
+            recv = V(opt_val(recv.t), recv.s.inner)
+            if f.attr in ("append", "insert", "pop", "remove", "extend", "clear", "reverse", "update", "setdefault"):
+                raise E.Unsupported("in-place method on an optional container")
         if isinstance(recv.s, SeqS):
             return self.seq_method(recv, f, n, env)
         if isinstance(recv.s, MapS):
@@ -185,6 +190,7 @@ def call_contract(self, fc, recv, args, kwargs, line, label):
     for wname, wsort in getattr(fc, "witness_funs", {}).items():
         E.Path._hc[0] += 1
         loc[wname] = V(None, FunS(wsort.args, wsort.res, name="%s!%d" % (wname, E.Path._hc[0])))
+        env.locals["g_" + wname] = loc[wname]          # the caller may name the witness in its own hints / invariants
     if recv is not None and fc.cls is not None:
         loc[selfname] = recv
     pre_env = E.Env(loc, dict(env.heap), env.alloc, spec=True)
@@ -348,6 +354,10 @@ def builtin_call(self, name, n, env):
         if fc is None:
             raise E.Unsupported("print() without an environment contract in this unit")
         return self.library_call(fc, n, env)
+    if name == "dict":
+        if not n.args:
+            return V(None, MapS(NONE, NONE))
+        return self.dict_from_pairs(n, env)
     if name == "divmod":
         a, b = self.ev(n.args[0], env), self.ev(n.args[1], env)
         q = self.binop(ast.FloorDiv(), a, b, n)
@@ -374,6 +384,11 @@ def builtin_call(self, name, n, env):
 def isinstance_of(self, v, tnames):
     E = _eng()
     s = v.s
+    if isinstance(s, OptS):
+        s = s.inner          # isinstance(None, T) is False for every T used here; callers test `is not None` first
+        if not self.env.spec:
+            if self.decide(opt_is_none(v.t)):
+                return z3.BoolVal(False)
     res = []
     for t in tnames:
         if t == "int":
@@ -801,3 +816,35 @@ def sorted_call(self, n, env):
     env.locals["g_pinv"] = V(None, FunS([INT], INT, name="pinv!%d" % E.Path._hc[0]))
     env.locals["g_sorted_in"] = S
     return V(R, S.s)
+
+
+def dict_from_pairs(self, n, env):
+    """dict(pairs) / dict(mapping): trusted builtin - the finite map in which, for every key, the LAST pair with that key wins"""
+    E = _eng()
+    src = self.ev(n.args[0], env)
+    if isinstance(src.s, MapS):
+        return src
+    S = self.as_iter_seq(src, getattr(n, "lineno", 0))
+    if not (isinstance(S.s.elem, TupS) and len(S.s.elem.elems) == 2):
+        raise E.Unsupported("dict() of a sequence of %r" % S.s.elem)
+    ks, vs = S.s.elem.elems
+    ms = MapS(ks, vs)
+    m = fresh("dict", ms)
+    E.Path._hc[0] += 1
+    last = z3.Function("dlast!%d" % E.Path._hc[0], z(ks), z3.IntSort())
+    j = ops.qvar("jd")
+    kx = z3.Const("k!d%d" % E.Path._hc[0], z(ks))
+    nlen = seq_len(S.t)
+    key_at = lambda i: tup_get(seq_get(S.t, i), 0)
+    val_at = lambda i: tup_get(seq_get(S.t, i), 1)
+    self.assume(map_size(m) >= 0, map_size(m) <= nlen, (map_size(m) == 0) == (nlen == 0),
+                z3.ForAll([j], z3.Implies(z3.And(0 <= j, j < nlen),
+                                          z3.And(z3.Select(map_dom(m), key_at(j)), j <= last(key_at(j)))), patterns=[seq_get(S.t, j)]),
+                z3.ForAll([kx], z3.Implies(z3.Select(map_dom(m), kx),
+                                           z3.And(0 <= last(kx), last(kx) < nlen, key_at(last(kx)) == kx,
+                                                  z3.Select(map_val(m), kx) == val_at(last(kx)))), patterns=[last(kx)]),
+                z3.ForAll([kx], z3.Implies(z3.Select(map_dom(m), kx),
+                                           z3.And(0 <= last(kx), last(kx) < nlen, key_at(last(kx)) == kx,
+                                                  z3.Select(map_val(m), kx) == val_at(last(kx)))), patterns=[z3.Select(map_dom(m), kx)]))
+    env.locals["g_dlast"] = V(None, FunS([ks], INT, name="dlast!%d" % E.Path._hc[0]))
+    return V(m, ms)
